@@ -101,7 +101,8 @@ class Program:
             cid = closure_of_origin(o)
             if cid:
                 return [cid], True
-            return [], False
+            t = sorted(self.reified().get(norm_fn_ty(term.get("fn_ty", "")), ()))
+            return t, bool(t)
         if kind == "virtual":
             tr = term.get("trait")
             name = term["callee"].rsplit("::", 1)[-1]
@@ -110,14 +111,67 @@ class Program:
                 key = dyn_key(term["gargs"][0])
                 t = sorted(coerced.get(key, ()))
                 return t, bool(t)
-            t = impls.get((tr, name), [])
-            return list(t), bool(t)
+            t = list(impls.get((tr, name), []))
+            if term["callee"] in self.fns and term["callee"] not in t:
+                t.append(term["callee"])   # provided (default) trait method
+            return t, bool(t)
         if res is None:
+            # call through a generic `F: Fn*` parameter: collect what callers pass in that position
+            if term["callee"] in ("std::ops::Fn::call", "std::ops::FnMut::call_mut", "std::ops::FnOnce::call_once") and term["args"]:
+                o = peel(f.origin_op(term["args"][0]))
+                if o[0] == "param":
+                    t = sorted(self.passed_callables(f.id, o[1]))
+                    return t, bool(t)
+            if term.get("trait"):
+                # unresolved trait call (generic Self inside a provided method): every impl in the crate
+                t = list(impls.get((term["trait"], term["callee"].rsplit("::", 1)[-1]), []))
+                if term["callee"] in self.fns and term["callee"] not in t:
+                    t.append(term["callee"])
+                if t:
+                    return t, True
+            if term["callee"] in self.fns:
+                return [term["callee"]], True
             return [], False
         if res in self.fns:
             return [res], True
         # closure called through Fn* traits resolved to the closure itself
         return [], True  # external function: leaf
+
+    def passed_callables(self, fid, param_index):
+        """fn items / closures passed as argument `param_index` (1-based) at every call site of fid"""
+        key = (fid, param_index)
+        cache = self.__dict__.setdefault("_passed", {})
+        if key in cache:
+            return cache[key]
+        out = set()
+        cache[key] = out
+        for g in self.real_fns():
+            for bi, t in g.calls():
+                if (t.get("resolved") or t.get("callee")) != fid and t.get("callee") != fid:
+                    continue
+                if len(t["args"]) < param_index:
+                    continue
+                a = t["args"][param_index - 1]
+                if "fn" in a and a["fn"] in self.fns:
+                    out.add(a["fn"])
+                    continue
+                c = closure_of_origin(g.origin_op(a))
+                if c and c in self.fns:
+                    out.add(c)
+        return out
+
+    def reified(self):
+        """fn-pointer type -> fn items reified to a pointer of that type anywhere in the crate"""
+        if getattr(self, "_reified", None) is None:
+            r = defaultdict(set)
+            for f in self.real_fns():
+                for bi, si, st in f.stmts():
+                    if st["k"] == "assign" and st["rv"]["k"] == "cast" and st["rv"]["kind"].startswith("coerce:ReifyFnPointer"):
+                        fn = st["rv"]["op"].get("fn")
+                        if fn and fn in self.fns:
+                            r[norm_fn_ty(st["rv"]["ty"])].add(fn)
+            self._reified = r
+        return self._reified
 
     def callgraph(self):
         if self._callgraph is not None:
@@ -163,6 +217,14 @@ class Program:
 
 class AnchorError(Exception):
     pass
+
+
+def norm_fn_ty(ty):
+    ty = re.sub(r"for<[^>]*> ?", "", ty)
+    ty = re.sub(r"'[a-z_0-9]+ ?", "", ty)
+    ty = re.sub(r"\(dyn ([^()]*?)( \+ )?\)", r"dyn \1", ty)
+    ty = re.sub(r"\s+", " ", ty)
+    return ty.strip()
 
 
 def dyn_key(ty):
@@ -481,6 +543,39 @@ class Fn:
             return ("const", op)
         return self.origin_place(p, depth + 1)
 
+    def copy_root(self, l, depth=0):
+        """follow `_a = copy/move _b` single definitions back to the first local that is not a plain copy"""
+        while depth < 20:
+            depth += 1
+            if 1 <= l <= self.arg_count:
+                return l
+            ds = self.full_defs(l)
+            if len(ds) != 1 or ds[0][0] != "stmt":
+                return l
+            st = ds[0][3]
+            if st["k"] != "assign" or st["rv"]["k"] != "use":
+                return l
+            nl = op_local(st["rv"]["op"])
+            if nl is None:
+                return l
+            l = nl
+        return l
+
+    def upvar_names(self):
+        if getattr(self, "_upvars", None) is None:
+            u = {}
+            for d in self.raw.get("debug", []):
+                pl = d.get("place")
+                if pl and pl["l"] == 1 and pl["p"]:
+                    for pr in pl["p"]:
+                        if isinstance(pr, dict) and "f" in pr:
+                            u.setdefault(pr["f"], d["name"])
+                            break
+                        if pr != "deref":
+                            break
+            self._upvars = u
+        return self._upvars
+
     def local_name(self, l):
         return self.locals[l].get("name")
 
@@ -742,8 +837,25 @@ def describe_origin(f, o, depth=0):
     if k == "ref":
         return "&" + describe_origin(f, o[1], depth + 1)
     if k == "place":
-        s = describe_origin(f, o[1], depth + 1)
-        for pr in o[2]:
+        projs = o[2]
+        if f.kind == "Closure" and o[1] == ("param", 1):
+            up = f.upvar_names()
+            for i, pr in enumerate(projs):
+                if isinstance(pr, dict) and "f" in pr:
+                    if pr["f"] in up and all(x == "deref" for x in projs[:i]):
+                        s = "upvar:" + up[pr["f"]]
+                        rest = [x for x in projs[i + 1:]]
+                        # the first deref after the field only undoes the by-reference capture
+                        if rest and rest[0] == "deref":
+                            rest = rest[1:]
+                        o = ("place", ("named", s), rest)
+                    break
+        if o[1][0] == "named":
+            s = o[1][1]
+            projs = o[2]
+        else:
+            s = describe_origin(f, o[1], depth + 1)
+        for pr in projs:
             if pr == "deref":
                 s = "*" + s
             elif isinstance(pr, dict) and "f" in pr:
